@@ -948,6 +948,43 @@ def r15_relabel_redistribute_dedupe(idx, r):
               msg=f"a nuclide is refused when `{norm(early[0].test)[:80]}`: distinct nuclides that agree on that key (the pseudo-nuclides of one element all have A = 0, state 0) are dropped from their element")
 
 
+def r17_identity_keys_and_complete_compositions(idx, r):
+    """(a) nuclides compare equal when their hashes are equal (INuclide.__eq__), and Element.append refuses a nuclide that is already `in`
+    the element: a class that orders its instances by a key (`__lt__`) hashes the SAME attributes.  Dropping the weight from the hash of the
+    dummy nuclides makes DUMP1 == DUMP2, and the second one never joins its element.  (b) B4C's enrichment helper returns the three mass
+    fractions that belong together (B10, B11 and the carbon that changes with them): a caller that unpacks them stores all three - two of
+    three leave a composition that does not sum to one."""
+    nb = idx.module("armi.nucDirectory.nuclideBases")
+    n = 0
+    for c in [k for k in nb.tree.body if isinstance(k, ast.ClassDef)]:
+        h = next((x for x in c.body if isinstance(x, ast.FunctionDef) and x.name == "__hash__"), None)
+        lt = next((x for x in c.body if isinstance(x, ast.FunctionDef) and x.name == "__lt__"), None)
+        if h is None or lt is None:
+            continue
+        ht = next((x for x in ast.walk(h) if isinstance(x, ast.Tuple)), None)
+        lt_t = next((x for x in ast.walk(lt) if isinstance(x, ast.Tuple) and all(isinstance(e, ast.Attribute) and norm(e.value) == "self" for e in x.elts)), None)
+        if ht is None or lt_t is None:
+            continue
+        n += 1
+        a, b = {e.attr for e in ht.elts if isinstance(e, ast.Attribute)}, {e.attr for e in lt_t.elts}
+        r.require(a == b, f"{c.name}:hash-and-order-use-the-same-attributes", (nb.relpath, h.lineno, c.name), node=None,
+                  msg=f"{c.name} orders by {sorted(b)} but hashes {sorted(a)}: instances that differ only in {sorted(a ^ b)} compare equal (equality is by hash), so the second of them is treated as already present")
+    if n < 3:
+        raise AnchorMissing("nuclide classes with __hash__ and __lt__")
+    k = 0
+    for f in idx.module("armi.materials.b4c").all_funcs():
+        for x in walk_local(f.node):
+            if isinstance(x, ast.Assign) and isinstance(x.value, ast.Call) and call_attr(x.value) == "setNewMassFracsFromMassEnrich" and isinstance(x.targets[0], ast.Tuple):
+                k += 1
+                names = [t.id for t in x.targets[0].elts if isinstance(t, ast.Name)]
+                stored = {y.id for c in iter_calls(f.node) if call_attr(c) in ("setMassFrac", "setMassFracs") for y in ast.walk(c) if isinstance(y, ast.Name)}
+                miss = [n_ for n_ in names if n_ not in stored]
+                r.require(len(names) == 3 and not miss, f"{f.qualname}:all-three-fractions-stored", f, node=x,
+                          msg=f"the fractions {miss} returned by setNewMassFracsFromMassEnrich are dropped: boron is re-enriched but the carbon keeps its old fraction, and the composition no longer sums to one")
+    if k < 1:
+        raise AnchorMissing("b4c: unpacking of setNewMassFracsFromMassEnrich")
+
+
 def r16_pairing(idx, r):
     from ..pairing import pairing_rule
     pairing_rule(idx, r, ["armi.nucDirectory", "armi.materials"], 80)
@@ -992,3 +1029,5 @@ def run(idx, chk):
                  necessary="each lookup returns the nuclide that carries the identifier; compositions sum to one; each nuclide belongs to its element")
     chk.run_rule("R19.16", "arguments stand at the parameter they are named after; sibling calls forward the same pass-through parameters", lambda r: r16_pairing(idx, r), floor=1,
                  necessary="Tk and Tc are handed to the parameter of their unit")
+    chk.run_rule("R19.17", "a nuclide class hashes the attributes it orders by; the three B4C fractions are stored together", lambda r: r17_identity_keys_and_complete_compositions(idx, r), floor=4,
+                 necessary="each nuclide belongs to its element; compositions sum to one")
